@@ -8,7 +8,7 @@ root = os.path.dirname(os.path.dirname(os.path.abspath(__file__)))
 p = next(json.loads(l) for l in open(f"{root}/properties.jsonl") if json.loads(l)["id"] == prop)
 t = open(f"{root}/tools/prompts/mutant.txt").read()
 files = p["anchors"]["files"]
-t = (t.replace("__DIR__", f"/tmp/mut/{name}").replace("__TITLE__", p.get("title", ""))
+t = (t.replace("__DIR__", f"/tmp/mutw/{name}").replace("__TITLE__", p.get("title", ""))
        .replace("__STATEMENT__", p.get("statement", "")).replace("__QUANT__", p["quantifier"]["text"])
        .replace("__FILES__", ", ".join(files)))
 used = []
